@@ -1,6 +1,20 @@
 package interpreter
 
-import "fmt"
+import (
+	"fmt"
+	"sort"
+)
+
+// sortedKeys lists the keys of an object in one fixed order, so that key and
+// value listings agree with each other and from one call to the next.
+func sortedKeys(object map[string]interface{}) []string {
+	keys := make([]string, 0, len(object))
+	for key := range object {
+		keys = append(keys, key)
+	}
+	sort.Strings(keys)
+	return keys
+}
 
 type NativeDeleteFn struct{}
 
@@ -58,7 +72,7 @@ func (n NativeKeysFn) Call(i *Interpreter, arguments []interface{}) (interface{}
 	}
 
 	keys := make([]interface{}, 0, len(object))
-	for key := range object {
+	for _, key := range sortedKeys(object) {
 		keys = append(keys, key)
 	}
 
@@ -86,8 +100,8 @@ func (n NativeValuesFn) Call(i *Interpreter, arguments []interface{}) (interface
 	}
 
 	values := make([]interface{}, 0, len(object))
-	for _, value := range object {
-		values = append(values, value)
+	for _, key := range sortedKeys(object) {
+		values = append(values, object[key])
 	}
 
 	return values, nil
